@@ -219,13 +219,42 @@ fn judge_history(c: &HistCase, cls: &mut Classifier) -> Verdict {
             e
         })?;
     }
+    // the same requests with every key object made on a thread of its own and all of them used here, on one
+    // thread: the signature must recover to the key it was made with (and equal the one made above)
+    let reqs: Vec<([u8; 32], [u8; 32])> = c.steps.iter().filter_map(|s| Some((unhex(&s.key_hex)?.try_into().ok()?, unhex(&s.digest_hex)?.try_into().ok()?))).collect();
+    let made: Vec<Option<PrivateKey>> = reqs
+        .iter()
+        .map(|(key, _)| {
+            let key = *key;
+            std::thread::spawn(move || catch(|| PrivateKey::new(key).ok()).ok().flatten()).join().ok().flatten()
+        })
+        .collect();
+    for (i, ((key, digest), k)) in reqs.iter().zip(&made).enumerate() {
+        let Some(k) = k else { return fail("a key object", "None", format!("PrivateKey::new failed on a fresh thread for key {}", hex_lower(key))) };
+        let sig = match catch(|| parts(&k.sign(Digest(*digest)))) {
+            Ok(s) => s,
+            Err(p) => return fail("a signature", p, format!("step {i}: signing with a key object made on another thread panicked")),
+        };
+        let here = catch(|| PrivateKey::new(*key).ok().map(|k| parts(&k.sign(Digest(*digest))))).ok().flatten();
+        let public = secp::mul_g(key).expect("valid key");
+        let rec = secp::ecdsa_recover(digest, &sig.r, &sig.s, sig.parity);
+        let same = here.as_ref().map(|h| h.r == sig.r && h.s == sig.s && h.parity == sig.parity).unwrap_or(false);
+        if rec.as_ref() != Some(&public) || !same {
+            return fail(
+                format!("a signature of key {} over {} (recovering to its public key)", hex_lower(key), hex_lower(digest)),
+                format!("r={} s={} yParity={} (recovers to the signer: {}; equals the signature of a key object made on this thread: {same})", hex_lower(&sig.r), hex_lower(&sig.s), sig.parity, rec.as_ref() == Some(&public)),
+                format!("step {i} of a history of {} signing requests whose key objects were each made on a thread of its own and then all used on one thread", reqs.len()),
+            );
+        }
+    }
+    cls.label("history/keys-made-on-other-threads");
     cls.label("history");
     cls.nontrivial(&c.steps.iter().map(|s| (s.key_hex.clone(), s.digest_hex.clone())).collect::<Vec<_>>());
     Ok(())
 }
 
 pub fn run(ctx: &mut Ctx) {
-    ctx.rule = "key from the C04 scalar strategy x digest from {0,1,n-1,n,n+1,2^256-1,2^255,uniform >= n,uniform}. Oracle: range checks, independent ECDSA verification and public-key recovery, sign == try_sign == second call, and for digests < n equality with an RFC 6979 reference (HMAC-SHA256 DRBG written from the RFC, low-s normalisation with parity flip). Histories: 4-6 related requests (digest or key differing in one bit, key and digest swapped, fresh ones) and the first one again, one after the other on one thread, each judged by the same oracle. Non-trivial: not the pinned unit-test key; distinct by (key, digest).".into();
+    ctx.rule = "key from the C04 scalar strategy x digest from {0,1,n-1,n,n+1,2^256-1,2^255,uniform >= n,uniform}. Oracle: range checks, independent ECDSA verification and public-key recovery, sign == try_sign == second call, and for digests < n equality with an RFC 6979 reference (HMAC-SHA256 DRBG written from the RFC, low-s normalisation with parity flip). Histories: 4-6 related requests (digest or key differing in one bit, key and digest swapped, fresh ones) and the first one again, one after the other on one thread, each judged by the same oracle; then the same requests with every key object made on a thread of its own and all used on one thread (signature must recover to its own key and equal the one of a key object made here). Non-trivial: not the pinned unit-test key; distinct by (key, digest).".into();
     ctx.assumptions = vec!["for digests >= n RFC 6979 equality is not claimed (the property restricts it to digests < n)".into()];
     ctx.replay_known_and_regressions(&replay);
     let n = ctx.tier.pick(60_000, 600_000);
